@@ -101,7 +101,12 @@ class FsAudit:
         if event == "open":
             path, mode, flags = args[0], args[1], args[2]
             if isinstance(flags, int) and flags & _W_FLAGS:
-                rec = ("open-w", [path], {"flags": flags})
+                if isinstance(path, int):
+                    # a file OBJECT put around an already open descriptor (os.fdopen): no path is opened, created or
+                    # truncated by this event - the os.open / mkstemp that produced the descriptor was recorded itself
+                    rec = ("open-w", [], {"flags": 0, "fd": path})
+                else:
+                    rec = ("open-w", [path], {"flags": flags})
         elif event in WRITE_EVENTS:
             paths = [a for a in args if isinstance(a, (str, bytes, os.PathLike))]
             dirfds = [a for a in args if isinstance(a, int)]
